@@ -133,17 +133,33 @@ class _Tx:
         return 1
 
 
+class _TxExisting(_Tx):
+    """the users table already holds the very user the (re-delivered) create request names"""
+    def __init__(self, username):
+        self.username = username
+
+    async def execute_and_fetchall(self, sql, args=None):
+        yield {'id': 7, 'state': 'active', 'username': self.username, 'login_id': 'login@x.org', 'is_developer': 0, 'is_service_account': 0,
+               'hail_identity': None, 'hail_credentials_secret_name': None}
+
+
 class _Ctx:
+    def __init__(self, tx=None):
+        self.tx = tx
+
     async def __aenter__(self):
-        return _Tx()
+        return self.tx or _Tx()
 
     async def __aexit__(self, *a):
         return False
 
 
 class _Db:
+    def __init__(self, existing=None):
+        self.existing = existing
+
     def start(self, read_only=False):
-        return _Ctx()
+        return _Ctx(_TxExisting(self.existing) if self.existing else None)
 
 
 def _drive(coro):
@@ -207,6 +223,18 @@ def repo_path(username, secret):
     return ('accept', '') if r is True else ('raise', f'unexpected return {r!r}')
 
 
+def repo_path_existing(username, secret):
+    """the same create request delivered again: the user row exists already (duplicate delivery / retry)"""
+    f = fns()
+    try:
+        r = _drive(f['insert'](_Db(existing=username), username, 'login@x.org', False, False, hail_credentials_secret_name=secret))
+    except f['AuthUserError'] as e:
+        return 'reject', type(e).__name__
+    except Exception as e:
+        return 'raise', f'{type(e).__name__}: {e}'
+    return ('accept', '') if r in (True, False) else ('raise', f'unexpected return {r!r}')
+
+
 def check_one(s):
     """-> list of (signature, clause, message)"""
     out = []
@@ -231,6 +259,10 @@ def check_one(s):
         if pg != got:
             out.append(('secret-name-call-path-differs', 'insert_new_user applies the secret-name validator',
                          f'insert_new_user(..., hail_credentials_secret_name={s!r}) {pg} {pd}; validator alone {got}'))
+        pg, pd = repo_path_existing('validuser', s)
+        if pg != got:
+            out.append(('secret-name-call-path-differs-existing-user', 'insert_new_user applies the secret-name validator whatever the users table holds',
+                         f'insert_new_user(..., hail_credentials_secret_name={s!r}) for an already existing user {pg} {pd}; validator alone {got}'))
     if s is None:
         return out
     # --- username
